@@ -23,13 +23,33 @@ Proof.
 Qed.
 
 Section S.
+Variable cf : cfg.
+Notation vis := (cvis cf).
 Variables A B : tref.
 Notation hit := (hit A).
 Notation sw_tbl := (sw_tbl A B).
 Notation subst := (subst A B).
-Notation rep := (rep A B).
+Notation rep := (rep cf A B).
 Notation occ := (occ A).
-Notation covered := (covered A).
+Notation covered := (covered cf A).
+Notation covs := (covs cf).
+Notation cov_ot := (cov_ot cf).
+Notation cov_ob := (cov_ob cf).
+Notation cov_q := (cov_q cf).
+Notation cov_wt := (cov_wt cf).
+Notation cov_ws := (cov_ws cf).
+Notation cov_ow := (cov_ow cf).
+Notation cov_join := (cov_join cf).
+Notation cov_stmt := (cov_stmt cf).
+Notation rep_q := (rep_q cf).
+Notation rep_ob := (rep_ob cf).
+Notation rep_wt := (rep_wt cf).
+Notation rep_ow := (rep_ow cf).
+Notation rep_join := (rep_join cf).
+Notation rep_withs := (rep_withs cf).
+Notation rep_joins := (rep_joins cf).
+Notation rep_stmt := (rep_stmt cf).
+Notation rep_stmt_core := (rep_stmt_core cf).
 
 Lemma sw_tbl_id t : hit t = false -> sw_tbl t = t.
 Proof. unfold Replace.sw_tbl. intros ->. reflexivity. Qed.
@@ -43,12 +63,12 @@ Proof. apply map_rep_subst. Qed.
 Lemma occs_id l : occs A l = false -> map subst l = l.
 Proof. apply map_subst_id. Qed.
 Lemma cov_ot_ok o : cov_ot A o = true -> option_map rep o = option_map subst o.
-Proof. destruct o; simpl; auto. intro H. rewrite (covered_rep_subst A B t H). reflexivity. Qed.
+Proof. destruct o; simpl; auto. intro H. rewrite (covered_rep_subst cf A B t H). reflexivity. Qed.
 Lemma occ_ot_id o : occ_ot A o = false -> option_map subst o = o.
 Proof. destruct o; simpl; auto. intro H. rewrite (occ_subst_id A B t H). reflexivity. Qed.
 Lemma cov_ob_ok l : cov_ob A l = true -> rep_ob A B l = subst_ob A B l.
 Proof.
-  apply (map_ext_forallb (fun p => covered (fst p))). intros [t o] H. simpl in *. rewrite (covered_rep_subst A B t H). reflexivity.
+  apply (map_ext_forallb (fun p => covered (fst p))). intros [t o] H. simpl in *. rewrite (covered_rep_subst cf A B t H). reflexivity.
 Qed.
 Lemma occ_ob_id l : occ_ob A l = false -> subst_ob A B l = l.
 Proof.
@@ -96,7 +116,7 @@ Proof.
   destruct w; simpl; intro H; andb_split H;
     repeat match goal with
            | Hx : cov1 ?v (covered ?x) (occ ?x) = true |- _ =>
-               rewrite (ifv_ok v _ _ rep subst x Hx (covered_rep_subst A B x) (occ_subst_id A B x)); clear Hx
+               rewrite (ifv_ok v _ _ rep subst x Hx (covered_rep_subst cf A B x) (occ_subst_id A B x)); clear Hx
            | Hx : cov1 ?v (covs A ?x) (occs A ?x) = true |- _ =>
                rewrite (ifv_ok v _ _ (map rep) (map subst) x Hx (covs_ok x) (occs_id x)); clear Hx
            | Hx : cov1 ?v (cov_ob A ?x) (occ_ob A ?x) = true |- _ =>
@@ -104,7 +124,7 @@ Proof.
            | Hx : cov1 ?v (cov_q A ?x) (occ_q A ?x) = true |- _ =>
                rewrite (ifv_ok v _ _ (rep_q A B) (subst_q A B) x Hx (cov_q_ok x) (occ_q_id x)); clear Hx
            end; try reflexivity.
-  - rewrite (covered_rep_subst A B t H). reflexivity.
+  - rewrite (covered_rep_subst cf A B t H). reflexivity.
   - rewrite (cov_q_ok q H). reflexivity.
 Qed.
 
@@ -141,10 +161,12 @@ Lemma cov_join_ok j : cov_join A j = true -> rep_join A B j = Ok (subst_join A B
 Proof.
   destruct j; simpl; intro H.
   - destruct (vis KJoin S_item).
-    + destruct item; simpl.
-      * first [discriminate H | rewrite H; reflexivity].
-      * rewrite (cov_q_ok q H). reflexivity.
-      * first [discriminate H | rewrite H; reflexivity].
+    + destruct (c_join_by_call cf).
+      * destruct item; simpl.
+        -- rewrite H. reflexivity.
+        -- rewrite (cov_q_ok q H). reflexivity.
+        -- rewrite H. reflexivity.
+      * rewrite (cov_src_ok item H). reflexivity.
     + apply negb_true_iff in H. rewrite (occ_src_id item H). reflexivity.
   - andb_split H.
     rewrite (ifv_ok _ _ _ (cmp_src A B) (subst_src A B) item H (cov_src_ok item) (occ_src_id item)).
@@ -172,12 +194,16 @@ Lemma stmt_ext a0 a1 a2 a3 a4 a5 a6 a7 a8 a9 a10 a11 a12 a13 a14 a15 a16 b1 b2 b
 Proof. intros; subst; reflexivity. Qed.
 
 Lemma rep_withs_ok s :
-  (if vis (skind s) S__with then match s_with s with [] => true | _ => false end
+  (if vis (skind s) S__with
+   then if c_with_by_call cf then match s_with s with [] => true | _ => false end
+        else forallb (fun p => cov_q A (snd p)) (s_with s)
    else negb (existsb (fun p => occ_q A (snd p)) (s_with s))) = true ->
   rep_withs A B s = Ok (map (fun p => (fst p, subst_q A B (snd p))) (s_with s)).
 Proof.
-  unfold rep_withs. intro HW. destruct (vis (skind s) S__with).
-  - destruct (s_with s); [reflexivity | discriminate].
+  unfold Replace.rep_withs. intro HW. destruct (vis (skind s) S__with).
+  - destruct (c_with_by_call cf).
+    + destruct (s_with s); [reflexivity | discriminate].
+    + f_equal. apply (map_ext_forallb (fun p => cov_q A (snd p))); auto. intros [n q] E. simpl in *. rewrite (cov_q_ok q E). reflexivity.
   - apply negb_true_iff in HW. f_equal. symmetry.
     apply (map_id_existsb (fun p => occ_q A (snd p))); auto. intros [n q] E. simpl in *. rewrite (occ_q_id q E). reflexivity.
 Qed.
@@ -186,7 +212,7 @@ Lemma rep_joins_ok s :
   (if vis (skind s) S__joins then forallb (cov_join A) (s_joins s) else negb (existsb (occ_join A) (s_joins s))) = true ->
   rep_joins A B s = Ok (map (subst_join A B) (s_joins s)).
 Proof.
-  unfold rep_joins. intro HJ. destruct (vis (skind s) S__joins).
+  unfold Replace.rep_joins. intro HJ. destruct (vis (skind s) S__joins).
   - apply mapM_joins. assumption.
   - apply negb_true_iff in HJ. f_equal. symmetry. apply (map_id_existsb (occ_join A)); auto. apply occ_join_id.
 Qed.
@@ -195,10 +221,10 @@ Ltac slot S := match goal with Hx : cov1 (vis _ S) _ _ = true |- _ => apply (ifv
 
 Theorem cov_stmt_ok s : cov_stmt A s = true -> rep_stmt A B s = Ok (subst_stmt A B s).
 Proof.
-  unfold cov_stmt, rep_stmt. cbv zeta. intro H. andb_split H.
+  unfold Replace.cov_stmt, Replace.rep_stmt. cbv zeta. intro H. andb_split H.
   match goal with Hx : (if vis _ S__with then _ else _) = true |- _ => rewrite (rep_withs_ok s Hx) end.
   match goal with Hx : (if vis _ S__joins then _ else _) = true |- _ => rewrite (rep_joins_ok s Hx) end.
-  apply f_equal. unfold rep_stmt_core, subst_stmt. cbv zeta. apply stmt_ext; try reflexivity.
+  apply f_equal. unfold Replace.rep_stmt_core, subst_stmt. cbv zeta. apply stmt_ext; try reflexivity.
   - slot S__from; [apply map_ext_forallb; apply cov_src_ok | apply map_id_existsb; apply occ_src_id].
   - slot S__insert_table; [reflexivity | apply subst_otbl_id].
   - slot S__update_table; [reflexivity | apply subst_otbl_id].
@@ -213,8 +239,10 @@ Proof.
     + apply (map_ext_forallb (fun p => cov_wt A (fst p))). intros [w o] E. simpl in *. rewrite (cov_wt_ok w E). reflexivity.
     + apply (map_id_existsb (fun p => occ_wt A (fst p))). intros [w o] E. simpl in *. rewrite (occ_wt_id w E). reflexivity.
   - slot S__updates.
-    + apply (map_ext_forallb (fun p => covered (fst p) && cov_wt A (snd p))). intros [t w] E. simpl in *.
-      apply andb_true_iff in E. destruct E as [E1 E2]. rewrite (covered_rep_subst A B t E1), (cov_wt_ok w E2). reflexivity.
+    + apply (map_ext_forallb (fun p => covered (fst p) && cov1 (vis KValue S_value) (cov_wt A (snd p)) (occ_wt A (snd p)))).
+      intros [t w] E. simpl in *. apply andb_true_iff in E. destruct E as [E1 E2].
+      rewrite (covered_rep_subst cf A B t E1).
+      rewrite (ifv_ok _ _ _ (rep_wt A B) (subst_wt A B) w E2 (cov_wt_ok w) (occ_wt_id w)). reflexivity.
     + apply (map_id_existsb (fun p => occ (fst p) || occ_wt A (snd p))). intros [t w] E. simpl in *.
       apply orb_false_iff in E. destruct E as [E1 E2]. rewrite (occ_subst_id A B t E1), (occ_wt_id w E2). reflexivity.
   - slot S__select_star_tables; [reflexivity | apply sw_star_id].
